@@ -258,32 +258,32 @@ m('c13-q-zero', 'C13', 'effect/eq_filter.rs', 'let q = q.max(MIN_Q);', 'let q = 
 m('c01-singular-newdiv', 'C01', 'track/main.rs',
   '\t\tlet num_frames = out.len();\n\t\tfor (i, frame) in out.iter_mut().enumerate() {',
   '\t\tlet num_frames = out.len();\n\t\tlet headroom = 1.0 / self.volume.value().as_amplitude();\n\t\tstd::hint::black_box(headroom);\n\t\tfor (i, frame) in out.iter_mut().enumerate() {',
-  'A.singular|track::main::MainTrack::process|div', 'a new division by an amplitude that is 0.0 at -60 dB')
+  'A.singular|track::main::MainTrack|div', 'a new division by an amplitude that is 0.0 at -60 dB')
 m('c01-singular-len-outside', 'C01', 'track/send.rs',
   '\t\tlet num_frames = out.len();\n',
   '\t\tlet num_frames = out.len();\n\t\tstd::hint::black_box(1.0 / num_frames as f64);\n',
-  'A.singular|track::send::SendTrack::process|div', 'a division by the chunk length outside the loop over the chunk (0 for an empty chunk)')
+  'A.singular|track::send::SendTrack|div', 'a division by the chunk length outside the loop over the chunk (0 for an empty chunk)')
 m('c13-singular-softclip', 'C13', 'effect/distortion.rs',
   'output.left / (1.0 + output.left.abs()),', 'output.left / (1.0 - output.left.abs()),',
-  'A.singular|<effect::distortion::Distortion as effect::Effect>::process|div', 'soft clip divides by 1 - |x| (zero at full scale)')
+  'A.singular|effect::distortion::Distortion|div', 'soft clip divides by 1 - |x| (zero at full scale)')
 m('c13-singular-mix-sqrt', 'C13', 'effect/reverb.rs',
   '(1.0 - mix).sqrt()', '(0.5 - mix).sqrt()',
-  'A.singular|<effect::reverb::Reverb as effect::Effect>::process|sqrt', 'square root of a value that is negative for mix > 0.5')
+  'A.singular|effect::reverb::Reverb|sqrt', 'square root of a value that is negative for mix > 0.5')
 m('c13-singular-drive', 'C13', 'effect/distortion.rs',
   '\t\t\tif drive > 0.0 {\n\t\t\t\toutput /= drive;\n\t\t\t}', '\t\t\tif drive >= 0.0 {\n\t\t\t\toutput /= drive;\n\t\t\t}',
-  'A.singular|<effect::distortion::Distortion as effect::Effect>::process|div', 'the zero test of the drive lets exactly zero through')
+  'A.singular|effect::distortion::Distortion|div', 'the zero test of the drive lets exactly zero through')
 m('c15-singular-range', 'C15', 'track/sub/spatial_builder.rs',
   '\t\tif !(self.min_distance < self.max_distance) {', '\t\tif !(self.min_distance <= self.max_distance) {',
-  'A.singular|track::sub::spatial_builder::SpatialTrackDistances::relative_distance|div', 'min == max reaches the division (0/0)')
+  'A.singular|track::sub::spatial_builder::SpatialTrackDistances|div', 'min == max reaches the division (0/0)')
 m('c17-map-empty-range', 'C17', 'value.rs',
   '\t\tlet mut amount = if input_span == 0.0 {', '\t\tlet mut amount = if input_span == 1.0 {',
-  'A.singular|value::Mapping::<T>::map|div', 'the empty-range test no longer protects the division', reverse_of='mapping with an empty input range')
+  'A.singular|value::Mapping::<T>|div', 'the empty-range test no longer protects the division', reverse_of='mapping with an empty input range')
 m('c06-tween-value-unguarded', 'C01', 'parameter.rs',
   '\t\t\t\tif tween.duration.is_zero() {\n\t\t\t\t\treturn None;\n\t\t\t\t}\n', '',
-  'A.singular|tween::Tween::value|div', 'a pending zero-duration tween evaluates 0/0 (only pinned by one clock test)')
+  'A.singular|tween::Tween|div', 'a pending zero-duration tween evaluates 0/0 (only pinned by one clock test)')
 m('c13-compressor-floor', 'C13', 'effect/compressor.rs',
   '(input - threshold).max(0.0)', '(input - threshold)',
-  'A.singular|<effect::compressor::Compressor as effect::Effect>::process|log', 'the -inf level of a silent sample is no longer floored')
+  'A.singular|effect::compressor::Compressor|log', 'the -inf level of a silent sample is no longer floored')
 
 # ---------------------------------------------------------------- C15
 m('c15-range', 'C15', 'track/sub/spatial_builder.rs',
